@@ -5,7 +5,7 @@ import random
 
 from . import scenarios
 from .framework import Check
-from .scenarios import Probed, random_behaviour, tlc_behaviours
+from .scenarios import Probed, random_behaviour, tlc_behaviours, tlc_built_behaviours
 
 BASE = {"NObs": 0, "ObsKinds": "<- NoKinds"}
 
@@ -43,12 +43,17 @@ def c01():
     chk = Check("C01", "model_checking")
     chk.mc(_fam(chk.tier), "SpecCore", _core_consts(),
            ["TypeOK", "Inv_Feasible", "Inv_CompleteAfterN"], timeout=3000)
+    if chk.tier == "thorough":
+        # beyond TLC's duration bounds: inductive invariant for 3x3x3 with symbolic durations / machine sets
+        chk.apalache_inductive()
     behs, r = tlc_behaviours("c01", fam="FamA", filt="FiltA", mode="complete",
                              simulate=f"num={_n(chk, 500, 4000)}", workers=4)
     n = _run_traces(chk, behs, "tlc-simulated")
     behs, r = tlc_behaviours("c01p", fam="FamA", filt="FiltA", mode="prefixes", faults=1, resets=1,
                              simulate=f"num={_n(chk, 150, 1500)}", workers=4)
     n += _run_traces(chk, behs, "tlc-simulated-prefixes-faults-resets", start_tid=n + 1)
+    behs, r = tlc_built_behaviours("c01b", faults=1, resets=1, simulate=f"num={_n(chk, 60, 800)}")
+    n += _run_traces(chk, behs, "tlc-built-larger-instances", start_tid=n + 1)
     if chk.tier == "thorough":
         behs3, _ = tlc_behaviours("c01m3", fam="FamM3", filt="FiltAll2", mode="complete",
                                   simulate="num=2000", workers=4)
@@ -69,6 +74,8 @@ def c02():
     chk = Check("C02", "model_checking")
     chk.mc(_fam(chk.tier), "SpecCore", _core_consts(),
            ["Inv_Tracking", "Inv_SemiActive", "Inv_Makespan"], timeout=3000)
+    if chk.tier == "thorough":
+        chk.apalache_inductive()
     behs, _ = tlc_behaviours("c02", fam="FamA", filt="FiltB", resets=1, faults=2, mode="complete", simulate=f"num={_n(chk, 400, 3000)}", workers=4)
     # a HistoryObserver subscribed from the start, so that the recorded history can be replayed
     for b in behs:
@@ -148,6 +155,8 @@ def c06():
                              simulate=f"num={_n(chk, 500, 4000)}", workers=4)
     probe = lambda r: ["current_time", "completed_operations"]  # noqa: E731
     n = _run_traces(chk, behs, "tlc-simulated", query_probe=probe, min_start_probe=True)
+    behs, _ = tlc_built_behaviours("c06b", simulate=f"num={_n(chk, 50, 600)}")
+    n += _run_traces(chk, behs, "tlc-built-larger-instances", start_tid=n + 1, query_probe=probe, min_start_probe=True)
     rng = random.Random(chk.seed + 6)
     rb = [random_behaviour(rng, max_jobs=5, max_ops=5, max_m=4, durs=(1, 2, 3, 5, 8) if i % 2 else (0, 1, 2, 3))
           for i in range(_n(chk, 150, 1500))]
